@@ -73,6 +73,9 @@ class SystemZ(Inference):
                 taut_solver.add_assertion(c.make_not_A_or_B())
             if not taut_solver.solve():
                 return True
+            if len(self.epistemic_state["partition"]) < 2:
+                # no finite layer: all feasible worlds are equally plausible
+                return False
             for c in self.epistemic_state["partition"][-1]:
                 solver.add_assertion(c.make_not_A_or_B())
                 solver.push()
